@@ -303,7 +303,8 @@ LINE_SAFE_WITNESSES = [w('local s = ( -- x\n"x"):rep(3)\nlocal t = ("x" -- y\n):
                        w('x = a -- c\n :: T\nfoo((a -- d\n) :: number)\n', oracle="comments", syntax="luau", sweep=(10, 120))]
 # D30 (open, a class): a line comment directly behind a keyword / name / symbol inside a statement header or a bracket, where the
 # formatter expects no comment: the token printed next lands inside the comment. One witness per call site that was examined.
-D30_FINDINGS = [w('local -- x\n x = 1\n', oracle="comments"), w('for -- x\n i = 1, 2 do end\n', oracle="comments"), w('for i = 1, -- x\n 2 do end\n', oracle="comments"),
+LOCAL_COMMENT_WITNESSES = [w('local -- x\n x = 1\nlocal -- y\n a, b\ndo local -- z\n c = 2 end\n', oracle="comments", sweep=(10, 120))]
+D30_FINDINGS = [w('for -- x\n i = 1, 2 do end\n', oracle="comments"), w('for i = 1, -- x\n 2 do end\n', oracle="comments"),
                 w('local function f -- x\n() end\n', oracle="comments"), w('function m.n -- x\n:o() end\n', oracle="comments"), w('repeat a() until -- x\n b\n', oracle="comments"),
                 w('local t = { [ -- x\n 2] = 3 }\n', oracle="comments"), w('goto -- x\n done\n::done::\n', oracle="comments", syntax="lua52")]
 ATTR_COMMENT_WITNESSES = [w('local x <const> -- x\n = 1\nlocal y <const>, z <close> -- y\n = 1, 2\n', oracle="tree", syntax="lua54"), w('local x: number -- x\n = 1\nlocal f: (number) -> () -- y\n = g\n', oracle="tree", syntax="luau"),
@@ -331,7 +332,7 @@ WITNESSES = {
     "C01.double_minus_guard": EXPR_WITNESSES[1:3],
 }
 
-C01_BOUNDED = [x for x in COLLAPSE_WITNESSES if x["oracle"] == "comments"] + BRACKET_WITNESSES + REHANG_WITNESSES[1:] + BINOP_COMMENT_WITNESSES + CALL_COMMENT_WITNESSES[:1] + PARAM_COMMENT_WITNESSES + UNOP_COMMENT_WITNESSES + ARG_PAREN_COMMENT_WITNESSES + [LINE_SAFE_WITNESSES[i] for i in (0, 2, 4)] + OPEN_COMMENT_FINDINGS + D30_FINDINGS
+C01_BOUNDED = [x for x in COLLAPSE_WITNESSES if x["oracle"] == "comments"] + BRACKET_WITNESSES + REHANG_WITNESSES[1:] + BINOP_COMMENT_WITNESSES + CALL_COMMENT_WITNESSES[:1] + PARAM_COMMENT_WITNESSES + UNOP_COMMENT_WITNESSES + ARG_PAREN_COMMENT_WITNESSES + [LINE_SAFE_WITNESSES[i] for i in (0, 2, 4)] + LOCAL_COMMENT_WITNESSES + OPEN_COMMENT_FINDINGS + D30_FINDINGS
 C02_BOUNDED = TYPE_WITNESSES + [x for x in COLLAPSE_WITNESSES if x["oracle"] == "tree"] + CALL_COMMENT_WITNESSES[1:] + [LINE_SAFE_WITNESSES[i] for i in (1, 3)] + ATTR_COMMENT_WITNESSES + D30_TREE_FINDINGS
 C03_BOUNDED = (TABLE_COMMENT_WITNESSES + COND_COMMENT_WITNESSES + SEMI_COMMENT_WITNESSES + [x for x in COLLAPSE_WITNESSES if x["oracle"] == "comments"][:2]
                + PAREN_COMMENT_WITNESSES + REHANG_WITNESSES[:1] + SORT_COMMENT_WITNESSES + FIELD_COMMENT_WITNESSES + OPEN_C03_FINDINGS)
